@@ -161,7 +161,13 @@ def default_judge(fam, case, cfg, w, res):
                 if bad:
                     res.violations.append(('wrong-value', f'party {p.pid} (unfinished): ' + '; '.join(bad)[:400]))
             continue
-        bad = fam.compare(expected, p.result, p.pid, cfg.m)
+        if crash or w.outcome != 'ok':
+            # completed outputs must be right; mid-program outputs of coroutines that never got to
+            # finish (peer crashed / run hung) are simply absent
+            exp = dict(expected, log={k: v for k, v in expected['log'].items() if k in p.result['log']})
+        else:
+            exp = expected
+        bad = fam.compare(exp, p.result, p.pid, cfg.m)
         if bad:
             res.violations.append(('wrong-value', f'party {p.pid}: ' + '; '.join(bad)[:400]))
     done = [p for p in w.parties if p.result is not None]
